@@ -81,6 +81,9 @@ class JobRunAdapter:
         cmds = act["cmds"]
         log = self.dir / "exec.log"
         commands = []
+        form = act.get("form", "full")
+        # env_path: the job's own environment overrides PATH and the commands name a program that only that PATH holds
+        shell = "mbvsh" if form == "env_path" else "sh"
         for j, c in enumerate(cmds, start=1):
             w = ""
             if "f1.txt" in c["writes"]:
@@ -90,11 +93,17 @@ class JobRunAdapter:
             script = (f'echo "{j}|$([ -e note.txt ] && cat note.txt || echo NOFILE)|$([ -e blob.bin ] && wc -c < blob.bin | tr -d " " || echo 0)'
                       f'|$MBV_A|$MBV_B|$(pwd)" >> {log}; '
                       f'echo out-{j}; echo err-{j} >&2; {w}' + ("kill -9 $$" if c["rc"] == 137 else f'exit {c["rc"]}'))
-            commands.append(("sh -c '" + script + "'", f"c{j}" if c["named"] else None))
+            commands.append((f"{shell} -c '" + script + "'", f"c{j}" if c["named"] else None))
         # the optional fields of the JobInput: omitted (None) vs explicitly empty vs given
         form = act.get("form", "full")
         kw = {"files": {"note.txt": "hello text", "blob.bin": b"\x00\x01\x02\xff" * 3}, "return_files": ("f1.txt", "f2.bin"),
               "envars": {"MBV_A": "job"}}
+        if form == "env_path":
+            bindir = self.dir / "jobbin"
+            bindir.mkdir(exist_ok=True)
+            (bindir / "mbvsh").write_text('#!/bin/sh\nexec /bin/sh "$@"\n')
+            (bindir / "mbvsh").chmod(0o755)
+            kw["envars"]["PATH"] = f"{bindir}:/usr/bin:/bin"
         field = {"nofiles": "files", "noenv": "envars", "noret": "return_files"}.get(form.split("_")[0])
         if field:
             if form.endswith("_none"):
